@@ -583,6 +583,14 @@ def icmp(pred, a, b):
                 return FALSE if pred == 'eq' else TRUE
             if len(var) == 1:
                 return icmp(pred, var[0][0], const(var[0][0].w, var[0][1]))
+            if var and len(var) <= 8:
+                # a concatenation equals a constant iff every part equals its share of it (single bits: a movemask against a constant;
+                # whole lanes: a vector compared with zero)
+                r = None
+                for p_, ks in var:
+                    b_ = (p_ if ks else not_(p_)) if p_.w == 1 else icmp('eq', p_, const(p_.w, ks))
+                    r = b_ if r is None else and_(r, b_)
+                return r if pred == 'eq' else not_(r)
     # (p ^ q) == 0  is  p == q
     if pred in ('eq', 'ne'):
         z, y = (a, b) if (a.op == 'const' and a.args[0] == 0) else (b, a)
@@ -612,6 +620,12 @@ def icmp(pred, a, b):
         if y.op == 'const' and y.args[0] in (0, 1) and x.op == 'concat' and len(x.args) == 2 and x.args[0].w == 1 \
                 and x.args[1].op == 'const' and x.args[1].args[0] == 0:
             truth = (y.args[0] == 1) == (pred == 'eq')
+            return x.args[0] if truth else not_(x.args[0])
+    if pred in ('eq', 'ne') and a.w > 1:
+        # a sign-extended boolean (all lanes of a mask equal) compared with 0 / all-ones
+        x, y = (a, b) if b.op == 'const' else (b, a)
+        if y.op == 'const' and x.op in ('sext', 'sextbits') and x.args[0].w == 1 and y.args[0] in (0, (1 << a.w) - 1):
+            truth = (y.args[0] != 0) == (pred == 'eq')
             return x.args[0] if truth else not_(x.args[0])
     if a.w == 1 and pred in ('eq', 'ne'):
         # icmp on booleans
